@@ -3,6 +3,7 @@ package checks
 import (
 	"bytes"
 	"fmt"
+	"math/rand"
 	"sort"
 
 	"github.com/cosmos/iavl"
@@ -99,12 +100,54 @@ func opsNormalForm(ops []v1x.Op, prev model.Snap) ([]csEntry, bool) {
 	return out, true
 }
 
+// bigVersionPlan: version 1 holds 2200-3000 keys; version 2 touches every key of a contiguous run of
+// 1100-2000 of them (rewrites, identical rewrites, removals) and inserts new keys into the run, so
+// that no untouched subtree lies between the changed leaves; version 3 is small.
+func bigVersionPlan(rng *rand.Rand) *v1x.Plan {
+	pl := &v1x.Plan{Cfg: v1x.Config{Cache: []int{0, 100, 10000}[rng.Intn(3)], Fast: rng.Intn(2) == 0, Backend: "mem"}}
+	n := 2200 + rng.Intn(800)
+	key := func(i int) []byte { return []byte(fmt.Sprintf("key-%05d", i*2)) }
+	for i := 0; i < n; i++ {
+		pl.Universe = append(pl.Universe, key(i))
+		pl.Ops = append(pl.Ops, v1x.Op{Kind: "set", K: key(i), V: []byte(fmt.Sprintf("v1-%d", i))})
+	}
+	pl.Ops = append(pl.Ops, v1x.Op{Kind: "save"})
+	lo := rng.Intn(n - 2000)
+	hi := lo + 1100 + rng.Intn(900)
+	for i := lo; i < hi; i++ {
+		switch rng.Intn(8) {
+		case 0:
+			pl.Ops = append(pl.Ops, v1x.Op{Kind: "rm", K: key(i)})
+		case 1:
+			pl.Ops = append(pl.Ops, v1x.Op{Kind: "set", K: key(i), V: []byte(fmt.Sprintf("v1-%d", i))}) // identical rewrite
+		case 2:
+			nk := []byte(fmt.Sprintf("key-%05d", i*2+1)) // a new key between two old ones
+			pl.Universe = append(pl.Universe, nk)
+			pl.Ops = append(pl.Ops, v1x.Op{Kind: "set", K: nk, V: []byte("new")}, v1x.Op{Kind: "set", K: key(i), V: []byte(fmt.Sprintf("v2-%d", i))})
+		default:
+			pl.Ops = append(pl.Ops, v1x.Op{Kind: "set", K: key(i), V: []byte(fmt.Sprintf("v2-%d", i))})
+		}
+	}
+	pl.Ops = append(pl.Ops, v1x.Op{Kind: "save"})
+	for j := 0; j < 5; j++ {
+		i := rng.Intn(n)
+		if rng.Intn(3) == 0 {
+			pl.Ops = append(pl.Ops, v1x.Op{Kind: "rm", K: key(i)})
+		} else {
+			pl.Ops = append(pl.Ops, v1x.Op{Kind: "set", K: key(i), V: []byte(fmt.Sprintf("v3-%d", j))})
+		}
+	}
+	pl.Ops = append(pl.Ops, v1x.Op{Kind: "save"})
+	return pl
+}
+
 func init() {
 	fw.Register(&fw.Check{
 		ID:    "C15",
 		Level: "exploration",
 		Cases: func(tier string) int { return tierN(tier, 1000, 50000) },
 		Rule: "case = one history (12-50 ops quick, up to 120 thorough; 1-8 keys; several writes/removals of one key inside a version, set-then-remove, remove-then-set, identical rewrites, no-op and empty versions, a few prunes/rollbacks/reopens; 1 history in 4 is generated in normal form: ascending keys, one op per key). " +
+			"1 history in 125 is three versions over 2200-3000 keys, the second of which touches every key of a contiguous run of 1100-2000 keys (rewrites, identical rewrites, removals, new keys in between). " +
 			"After every commit and at the end: TraverseStateChanges over the full range and over random sub-ranges; for every delivered version whose predecessor is retained (or that is the first version ever) the change set must equal the model's net change: ascending, one entry per key, a set entry with the value for every key whose last operation in v was a Set (also when unchanged), a delete entry for every key of v-1 absent in v, nothing else, and applying it to M(v-1) gives M(v); every requested retained version in [start,end) must be delivered. " +
 			"Replay: all extracted sets are applied with SaveChangeSet to an empty tree (same initial version): each call must create exactly the next version, contents must equal M(v), and the root hash must equal the original whenever the original writes were already in normal form (decided by comparing the two lists); SaveChangeSet with a removal of a missing key must fail, also when the key goes missing inside the set (two removals of one key in a row); a key that is set and then removed inside the set is not missing (such a set is applied instead of the extracted one in a quarter of the versions). " +
 			"distinct = hash(config, ops); non-trivial = >=3 versions with predecessor compared incl. >=1 with a delete entry and >=1 replay.",
@@ -122,6 +165,10 @@ func init() {
 			normal := c.Index%4 == 3
 			if normal {
 				pl = normalize(pl)
+			}
+			if c.Index%125 == 124 {
+				pl = bigVersionPlan(c.Rng)
+				c.Obs("histories_with_a_version_touching_a_long_run_of_keys", 1)
 			}
 			c.Res.Digest = fw.DigestOf(pl.Cfg, pl.Summary(1000))
 			if c.Index < 2 || (normal && c.Index < 8) {
